@@ -53,6 +53,7 @@ import (
 	"reflect"
 	"runtime"
 	"slices"
+	"strings"
 	"sync/atomic"
 	_ "unsafe"
 
@@ -597,10 +598,17 @@ func runFrame(fr *frame) {
 		}
 		fr.panicking = true
 		fr.panic = recover()
-		switch fr.panic.(type) {
+		switch pv := fr.panic.(type) {
 		case pathAbort, unsupported:
 			// executor-level events are not visible to the interpreted program
 			panic(fr.panic)
+		case *runtime.TypeAssertionError:
+			// a failed assertion on the interpreter's own value types is a gap of the executor
+			// (typically a symbolic value reaching a concrete-only external), not a panic of the
+			// interpreted program
+			if strings.Contains(pv.Error(), "gose.") {
+				panic(unsupported("symbolic value reached a concrete-only operation: " + pv.Error() + " " + shortStack()))
+			}
 		}
 		if fr.i.mode&EnableTracing != 0 {
 			fmt.Fprintf(os.Stderr, "Panicking: %T %v.\n", fr.panic, fr.panic)
